@@ -123,6 +123,13 @@ func (l *lruModel) set(name string, e *entry) (evicted string) {
 	return evicted
 }
 
+// queryOK: a query is for exactly the looked-up name (case-insensitively), type A or AAAA, class
+// IN, QR=0, and carries the EDNS(0) OPT record (dns.go: maxDNSPacketSize "is the maximum packet
+// size to advertise in EDNS(0)"), with nothing else in the message.
+func queryOK(q *query, name string) bool {
+	return strings.EqualFold(q.Name, name) && !q.QR && q.Class == 1 && (q.Type == tA || q.Type == tAAAA) && q.OPT && q.UDPSize >= 512
+}
+
 // tcpEval is the outcome of evaluating the consumed items of the TCP phase of one lookup.
 type tcpEval struct {
 	acc       map[int]*item
@@ -156,7 +163,7 @@ func evalTCP(name string, s *lookupScript, obs []*connObs, start, end time.Time,
 		}
 		asked := map[int]bool{}
 		for _, q := range o.Queries {
-			if !strings.EqualFold(q.Name, name) || q.QR || q.Class != 1 || (q.Type != tA && q.Type != tAAAA) {
+			if !queryOK(&q, name) {
 				return ev, fmt.Sprintf("SIG=C17/tcp-query-wrong conn=%d query=%+v name=%q", ci, q, name)
 			}
 			if q.Type == tA {
